@@ -89,7 +89,12 @@ struct Env<'a> {
     rpwa_ok: bool,
     conn: &'a str, // `src` in an into_stream body, `self` inside PacketTransport
     depth: usize,
+    /// closure arguments of a shared helper the `into_stream` body delegates to (`reply_stream(input, src, |p| matches!(p, ..))`):
+    /// parameter name of the helper -> the closure passed for it
+    closures: &'a Closures,
 }
+
+pub type Closures = HashMap<String, syn::ExprClosure>;
 
 fn strip(e: &syn::Expr) -> &syn::Expr {
     match e {
@@ -279,6 +284,30 @@ fn eval_bool(e: &syn::Expr, env: &mut Env) -> Result<bool, String> {
             let key = format!("{}::{}", env.enum_name, m.method);
             call_helper(&key, env)
         }
+        syn::Expr::Call(c)
+            if c.args.len() == 1
+                && is_packet(&c.args[0], env)
+                && matches!(&*c.func, syn::Expr::Path(p) if p.path.get_ident().map(|i| env.closures.contains_key(&i.to_string())).unwrap_or(false)) =>
+        {
+            // a closure the sequence handed to the shared helper, applied to the packet
+            let syn::Expr::Path(p) = &*c.func else { unreachable!() };
+            let cl = env.closures[&p.path.get_ident().unwrap().to_string()].clone();
+            if cl.inputs.len() != 1 || env.depth > 4 {
+                return Err("closure with other than one parameter".into());
+            }
+            let param = match &cl.inputs[0] {
+                syn::Pat::Ident(i) => Some(i.ident.to_string()),
+                syn::Pat::Wild(_) => None,
+                syn::Pat::Type(t) => match &*t.pat {
+                    syn::Pat::Ident(i) => Some(i.ident.to_string()),
+                    syn::Pat::Wild(_) => None,
+                    _ => return Err("closure parameter pattern".into()),
+                },
+                _ => return Err("closure parameter pattern".into()),
+            };
+            let mut inner = Env { enum_name: env.enum_name, variant: env.variant, packet: param, bools: HashMap::new(), helpers: env.helpers, rpwa_ok: env.rpwa_ok, conn: env.conn, depth: env.depth + 1, closures: env.closures };
+            eval_bool(&cl.body, &mut inner)
+        }
         syn::Expr::Call(c) if c.args.len() == 1 && is_packet(&c.args[0], env) => {
             let name = match &*c.func {
                 syn::Expr::Path(p) => {
@@ -305,7 +334,7 @@ fn call_helper(name: &str, env: &mut Env) -> Result<bool, String> {
     if env.depth > 4 {
         return Err("helper recursion".into());
     }
-    let mut inner = Env { enum_name: env.enum_name, variant: env.variant, packet: Some(param), bools: HashMap::new(), helpers: env.helpers, rpwa_ok: env.rpwa_ok, conn: env.conn, depth: env.depth + 1 };
+    let mut inner = Env { enum_name: env.enum_name, variant: env.variant, packet: Some(param), bools: HashMap::new(), helpers: env.helpers, rpwa_ok: env.rpwa_ok, conn: env.conn, depth: env.depth + 1, closures: env.closures };
     // the body: `let`s of Booleans, then a tail expression (or `return e;`)
     let n = body.stmts.len();
     for (k, s) in body.stmts.iter().enumerate() {
@@ -465,7 +494,8 @@ pub fn read_packet_with_ack_ok(io: &syn::File) -> bool {
 
 fn rpwa_body_ok(b: &syn::Block) -> bool {
     let helpers = Helpers::new();
-    let mut env = Env { enum_name: "", variant: "", packet: None, bools: HashMap::new(), helpers: &helpers, rpwa_ok: false, conn: "self", depth: 0 };
+    let no_closures = Closures::new();
+    let mut env = Env { enum_name: "", variant: "", packet: None, bools: HashMap::new(), helpers: &helpers, rpwa_ok: false, conn: "self", depth: 0, closures: &no_closures };
     let mut evs = vec![];
     let n = b.stmts.len();
     if n < 2 {
@@ -514,6 +544,12 @@ fn rpwa_body_ok(b: &syn::Block) -> bool {
 
 /// (kind, finals): kind = "once" | "loop" | "unknown:<why>"
 pub fn classify(tokens: proc_macro2::TokenStream, enum_name: &str, variants: &[String], helpers: &Helpers, rpwa_ok: bool) -> (String, Vec<String>) {
+    classify_in(tokens, enum_name, variants, helpers, rpwa_ok, &Closures::new(), "src", "input")
+}
+
+/// `classify` for a body that lives in a shared helper: `conn` / `input` are the helper's names for the connection and the command,
+/// `closures` the closures the sequence passes for the helper's function parameters.
+pub fn classify_in(tokens: proc_macro2::TokenStream, enum_name: &str, variants: &[String], helpers: &Helpers, rpwa_ok: bool, closures: &Closures, conn: &str, input: &str) -> (String, Vec<String>) {
     let block: syn::Block = match syn::parse2(quote::quote!({ #tokens })) {
         Ok(b) => b,
         Err(e) => return (format!("unknown:unparsable body {e}"), vec![]),
@@ -528,7 +564,7 @@ pub fn classify(tokens: proc_macro2::TokenStream, enum_name: &str, variants: &[S
         return ("unknown:empty body".into(), vec![]);
     }
     let first = norm(stmts.remove(0));
-    if first != "src.write_packet_with_ack(input).await?;" && first != "src.write_packet_with_ack(&input).await?;" && first != "src.write_packet_with_ack(&*input).await?;" {
+    if first != format!("{conn}.write_packet_with_ack({input}).await?;") && first != format!("{conn}.write_packet_with_ack(&{input}).await?;") && first != format!("{conn}.write_packet_with_ack(&*{input}).await?;") {
         return (format!("unknown:first statement {first}"), vec![]);
     }
     if variants.is_empty() {
@@ -554,7 +590,7 @@ pub fn classify(tokens: proc_macro2::TokenStream, enum_name: &str, variants: &[S
         if let Some(body) = body {
             let mut finals = vec![];
             for v in variants {
-                let mut env = Env { enum_name, variant: v, packet: None, bools: init.clone(), helpers, rpwa_ok, conn: "src", depth: 0 };
+                let mut env = Env { enum_name, variant: v, packet: None, bools: init.clone(), helpers, rpwa_ok, conn, depth: 0, closures };
                 if let Some(c) = cond {
                     match eval_bool(c, &mut env) {
                         Ok(true) => {}
@@ -591,6 +627,10 @@ pub fn classify(tokens: proc_macro2::TokenStream, enum_name: &str, variants: &[S
             if finals.is_empty() {
                 return ("unknown:loop without a final packet".into(), vec![]);
             }
+            if finals.len() == variants.len() {
+                // every reply ends the loop: the same exchange as a body without loop
+                return ("once".into(), vec![]);
+            }
             return ("loop".into(), finals);
         }
     }
@@ -600,7 +640,7 @@ pub fn classify(tokens: proc_macro2::TokenStream, enum_name: &str, variants: &[S
     // no loop: exactly one reply, whatever it is
     let owned: Vec<syn::Stmt> = stmts.into_iter().cloned().collect();
     for v in variants {
-        let mut env = Env { enum_name, variant: v, packet: None, bools: HashMap::new(), helpers, rpwa_ok, conn: "src", depth: 0 };
+        let mut env = Env { enum_name, variant: v, packet: None, bools: HashMap::new(), helpers, rpwa_ok, conn, depth: 0, closures };
         let mut evs = vec![];
         match eval_block(&owned, &mut env, &mut evs) {
             Err(e) => return (format!("unknown:{e}"), vec![]),
